@@ -64,8 +64,9 @@ class Sessions:
     session, and the next OPEN corebgp sends must again be exactly the configured one"""
     no_model = True
 
-    def __init__(self, sid, direction, las, hold, caps, remote_holds):
+    def __init__(self, sid, direction, las, hold, caps, remote_holds, caps_seq=None):
         self.sid, self.direction, self.las, self.hold, self.caps, self.remote_holds = sid, direction, las, hold, caps, remote_holds
+        self.caps_seq = caps_seq
         self.tag = "open-on-wire.%s.as%d.hold%d.caps%d.%s" % (direction, las, hold, len(caps), "-".join(map(str, remote_holds)))
         self.remote_id = 0x0A000002
 
@@ -81,7 +82,8 @@ class Sessions:
                   [["close", c], ["recv_eof", c, 800], ["fullclose", c], ["sleep", 30]]
         return {"id": self.sid, "local_as": self.las, "remote_as": 65000, "local_id": 0x0A000001, "hold": self.hold,
                 "passive": self.direction == "in", "idle_hold_ms": 60, "connect_retry_ms": 300,
-                "caps": [[c, v.hex()] for c, v in self.caps], "on_open": None, "handler": [], "est_writes": [], "steps": st}
+                "caps": [[c, v.hex()] for c, v in self.caps], "on_open": None, "handler": [], "est_writes": [], "steps": st,
+                "caps_seq": [[[c, v.hex()] for c, v in l] for l in self.caps_seq] if self.caps_seq else []}
 
     def model_case(self):
         return None
@@ -96,6 +98,9 @@ def sys_items(rng, tier):
             for hold, rholds in ((90, (30, 90, 0, 240)), (240, (0, 240, 3)), (0, (90, 0)), (3, (65535, 3, 10))):
                 out.append(Sessions(sid, direction, las, hold, rng.choice(capsets), rholds))
                 sid += 1
+        # the plugin answers GetCapabilities differently on every call: each OPEN carries the list returned for it
+        out.append(Sessions(sid, direction, 65001, 90, [], (90, 90, 90, 90), caps_seq=[capsets[1], capsets[2], [], capsets[1]]))
+        sid += 1
     return out
 
 
